@@ -158,6 +158,84 @@ def _fold_ifs(stmts):
     return out
 
 
+def _generator_shape(fn):
+    """PRE; while C: A; yield E; B  (one yield, a whole statement of the loop body, nothing behind the loop) -> (pre, loop, index of the
+    yield statement) or None."""
+    a = fn.args
+    if a.vararg or a.kwarg or a.kwonlyargs or a.posonlyargs:
+        return None
+    body = _body(fn)
+    ys = [x for st in body for x in ast.walk(st) if isinstance(x, (ast.Yield, ast.YieldFrom))]
+    if len(ys) != 1 or not isinstance(ys[0], ast.Yield) or ys[0].value is None or not body or not isinstance(body[-1], ast.While) or body[-1].orelse:
+        return None
+    loop = body[-1]
+    idx = [i for i, st in enumerate(loop.body) if isinstance(st, ast.Expr) and st.value is ys[0]]
+    if len(idx) != 1:
+        return None
+    for st in body:
+        for x in ast.walk(st):
+            if isinstance(x, (ast.Return, ast.FunctionDef, ast.AsyncFunctionDef, ast.ClassDef, ast.Lambda, ast.Global, ast.Nonlocal, ast.Await)):
+                return None
+            if isinstance(x, (ast.Break, ast.Continue)):
+                return None
+    return body[:-1], loop, idx[0]
+
+
+def _expand_generator(fn, kind, site):
+    """`for TARGET in G(args): BODY` with G of the shape above: the generator's loop with `TARGET = E; BODY` in place of the yield."""
+    shape = _generator_shape(fn)
+    if shape is None or site.orelse:
+        return None
+    # a `continue` of the for loop would skip the rest of the generator's cycle
+    def own_continue(stmts):
+        for st in stmts:
+            if isinstance(st, ast.Continue):
+                return True
+            if isinstance(st, (ast.For, ast.While, ast.FunctionDef)):
+                continue
+            for fld in ('body', 'orelse', 'finalbody'):
+                if own_continue(getattr(st, fld, []) or []):
+                    return True
+            if isinstance(st, ast.Try) and any(own_continue(h.body) for h in st.handlers):
+                return True
+        return False
+    if own_continue(site.body):
+        return None
+    b = _bind(fn, kind, site.iter)
+    if b is None:
+        return None
+    prefix, mapping = b
+    pre, loop, yi = shape
+    sub = _Subst(mapping)
+    pre = [sub.visit(copy.deepcopy(s_)) for s_ in pre]
+    loop = sub.visit(copy.deepcopy(loop))
+    yv = loop.body[yi].value.value
+    bind = [] if norm_eq(site.target, yv) else [ast.Assign(targets=[copy.deepcopy(site.target)], value=yv)]
+    loop.body[yi:yi + 1] = bind + [copy.deepcopy(s_) for s_ in site.body]
+    if len(prefix) > 1:
+        # arguments are evaluated before any parameter is bound
+        prefix = [ast.Assign(targets=[ast.Tuple(elts=[p.targets[0] for p in prefix], ctx=ast.Store())],
+                             value=ast.Tuple(elts=[p.value for p in prefix], ctx=ast.Load()))]
+    out = prefix + pre + [loop]
+    for s_ in out:
+        for x in ast.walk(s_):
+            if not hasattr(x, 'lineno') and isinstance(x, (ast.stmt, ast.expr)):
+                x.lineno = getattr(site, 'lineno', 1)
+                x.end_lineno = getattr(site, 'end_lineno', x.lineno)
+                x.col_offset = 0
+                x.end_col_offset = 0
+    return out
+
+
+def norm_eq(a, b):
+    def strip(e):
+        return ast.dump(ast.parse(ast.unparse(e), mode='eval').body).replace('Store()', 'Load()')
+    try:
+        return strip(a) == strip(b)
+    except Exception:
+        return False
+
+
 def _is_call_of(node, fn, kind):
     if not isinstance(node, ast.Call):
         return False
@@ -325,6 +403,24 @@ def expand(module_name, tree):
         changed = False
         for key, fn, outer in _new_helpers(module_name, tree):
             kind = _kind(fn, tree) if outer is None else 'function'
+            if kind is not None and _generator_shape(fn) is not None and len([x for x in ast.walk(tree) if isinstance(x, ast.FunctionDef) and x.name == fn.name]) == 1:
+                n = 0
+                for lst in list(_stmt_lists(outer if outer is not None else tree)):
+                    i = 0
+                    while i < len(lst):
+                        st = lst[i]
+                        if isinstance(st, ast.For) and _is_call_of(st.iter, fn, kind) and not any(s_ is st for s_ in ast.walk(fn)):
+                            new = _expand_generator(fn, kind, st)
+                            if new is not None:
+                                lst[i:i + 1] = new
+                                i += len(new)
+                                n += 1
+                                changed = True
+                                continue
+                        i += 1
+                if n:
+                    done.append((key, n, fn))
+                continue
             if kind is None or not _inlinable(fn):
                 continue
             # the name must denote this helper only
